@@ -119,6 +119,9 @@ def filter_section(ctx):
             flt.append(dict({"name": n2, "pre": not pre}, **e2))
         desc = {"glyphs": glyphs, "glyphOrder": [g["name"] for g in glyphs], "lib": {FILTERS_KEY: flt},
                 "features": "languagesystem DFLT dflt;\n"}
+        if i % 2 == 0 and (i // len(filters)) % 2 == 1:
+            # the font's own U+25CC glyph is not exported: it is not in the glyph set the filters work on
+            desc["lib"]["public.skipExportGlyphs"] = ["dottedcircle"]
         font = build_font(desc, lib)
         case = {"function": fn, "lib": lib, "filters": jsonable(flt), "font": jsonable(desc)}
         ctx.klass("lib filter:%s%s" % (name, "/pre" if pre else ""))
